@@ -70,6 +70,16 @@ def scope_consts(repo):
         body = extract.fn_body(st[st.index("impl ISymbolTable for SymbolTable"):], fn)
         g = re.search(r"hash_map\.get\(&([^)]*\))\)", body)
         if not g:
+            # the lookup may sit in a private helper the function calls (`self.local_index_of(id)`): follow one level
+            for h in re.findall(r"self\.(\w+)\(", body):
+                try:
+                    hb = extract.fn_body(st, h)
+                except Exception:
+                    continue
+                g = re.search(r"hash_map\.get\(&([^)]*\))\)", hb)
+                if g:
+                    break
+        if not g:
             raise ValueError("hash_map.get not found in " + fn)
         sites.append(("symbol_table::%s: lookup key" % fn, ".to_uppercase()" in g.group(1)))
     body = extract.fn_body(st[st.index("impl ISymbolTable for SymbolTable"):], "insert_symbol_info")
